@@ -2250,7 +2250,7 @@ class MySQLDDLCompiler(
                 columns_str = ", ".join(
                     (
                         "%s(%d)" % (expr, length[col.name])  # type: ignore[union-attr]  # noqa: E501
-                        if col.name in length  # type: ignore[union-attr]
+                        if getattr(col, "name", None) in length
                         else (
                             "%s(%d)" % (expr, length[expr])
                             if expr in length
